@@ -104,6 +104,73 @@ fn enum_format_latex_side_conditions() { check_format(&FORMAT_LATEX); }
 #[kani::unwind(80)]
 fn enum_format_han_side_conditions() { check_format(&FORMAT_HAN); }
 
+/// C01 (vocabulary side of the round trip): an atom name ends where a copula starts (the enum
+/// parser's look-ahead), so a copula that consists of NAME CHARACTERS followed by another copula is
+/// ambiguous after an atom: a name that ends in those characters, followed by the shorter copula,
+/// is read as the shorter name followed by the longer copula (`<name+P> A <x>` and `<name> P+A <x>`
+/// are the same text whenever no space is written between terms).  For the j-th copula A of the
+/// format: no other copula of the format is P + A with P a non-empty run of name characters.
+fn copula_not_a_name_suffix_tail(f: &NarseseFormat<&str>, j: usize) -> bool {
+    let cs = f.copulas();
+    let a = cs[j];
+    let mut i = 0;
+    while i < cs.len() {
+        let b = cs[i];
+        if i != j && b.len() > a.len() && b.ends_with(a) {
+            // the part of b before a: all name characters?
+            let p = &b[..b.len() - a.len()];
+            let mut all_name = true;
+            for ch in p.chars() {
+                if !(f.is_valid_atom_name)(ch) {
+                    all_name = false;
+                }
+            }
+            if all_name {
+                return false;
+            }
+        }
+        i += 1;
+    }
+    true
+}
+/// only formats that write NO space between a subject and the copula are exposed: with a space
+/// (which is not a name character) the name ends before the copula is looked at
+fn check_copula_overlap(f: &NarseseFormat<&str>) {
+    if !f.space.format_terms.is_empty() {
+        let first = f.space.format_terms.chars().next().unwrap();
+        assert!(!(f.is_valid_atom_name)(first), "the term-level space starts with a non-name character");
+        return;
+    }
+    // one path per copula (a failed assertion ends its path: each is reported on its own)
+    let j: usize = kani::any();
+    kani::assume(j < 13);
+    match j {
+        0 => assert!(copula_not_a_name_suffix_tail(f, 0), "no copula is name characters + the inheritance copula"),
+        1 => assert!(copula_not_a_name_suffix_tail(f, 1), "no copula is name characters + the similarity copula"),
+        2 => assert!(copula_not_a_name_suffix_tail(f, 2), "no copula is name characters + the implication copula"),
+        3 => assert!(copula_not_a_name_suffix_tail(f, 3), "no copula is name characters + the equivalence copula"),
+        4 => assert!(copula_not_a_name_suffix_tail(f, 4), "no copula is name characters + the instance copula"),
+        5 => assert!(copula_not_a_name_suffix_tail(f, 5), "no copula is name characters + the property copula"),
+        6 => assert!(copula_not_a_name_suffix_tail(f, 6), "no copula is name characters + the instance-property copula"),
+        7 => assert!(copula_not_a_name_suffix_tail(f, 7), "no copula is name characters + the predictive implication copula"),
+        8 => assert!(copula_not_a_name_suffix_tail(f, 8), "no copula is name characters + the concurrent implication copula"),
+        9 => assert!(copula_not_a_name_suffix_tail(f, 9), "no copula is name characters + the retrospective implication copula"),
+        10 => assert!(copula_not_a_name_suffix_tail(f, 10), "no copula is name characters + the predictive equivalence copula"),
+        11 => assert!(copula_not_a_name_suffix_tail(f, 11), "no copula is name characters + the concurrent equivalence copula"),
+        12 => assert!(copula_not_a_name_suffix_tail(f, 12), "no copula is name characters + the retrospective equivalence copula"),
+        _ => {}
+    }
+}
+#[kani::proof]
+#[kani::unwind(80)]
+fn copula_overlap_ascii() { check_copula_overlap(&FORMAT_ASCII); }
+#[kani::proof]
+#[kani::unwind(80)]
+fn copula_overlap_latex() { check_copula_overlap(&FORMAT_LATEX); }
+#[kani::proof]
+#[kani::unwind(80)]
+fn copula_overlap_han() { check_copula_overlap(&FORMAT_HAN); }
+
 /// C11 (lexicon part): the ASCII keywords are exactly those of the OpenNARS-compatible lexicon
 /// the README refers to (https://github.com/opennars/opennars/wiki/Narsese-Grammar-(Input-Output-Format))
 /// and the bracket / separator characters of the README's PEG grammar.  The table below is
